@@ -162,6 +162,25 @@ def check_nearest(fam, x):
     return None
 
 
+def check_kick_direct(x, sne):
+    """the kick routine's own table lookup, fed as the constructors feed it (metallicity clamped to the uSSE grid first)"""
+    fam = f"uSSE_{sne}"
+    names, vals = grid(fam)
+    with LoadSpy() as spy:
+        try:
+            kicks._F12_fallback_frac(ifmr._check_IFMR_FeH_bounds(x, loc=f"ifmr/{fam}") if sne != "rapid" else ifmr._check_IFMR_FeH_bounds(x),
+                                     SNe_method=sne)
+        except Exception as e:
+            return {"clause": "kick fallback fractions are available for every metallicity", "observed": f"{type(e).__name__}: {e}"[:160]}
+    opened = [re.search(r"FEH([+-]\d+\.\d+)\.dat", f).group(1) for f in spy.files if "FEH" in f]
+    if len(opened) != 1:
+        return {"clause": "exactly one fallback table is read", "observed": opened}
+    best = min(abs(x - v / 100) for v in vals)
+    if abs(x - float(opened[0])) > best + 1e-12:
+        return {"clause": "kick fallback fractions are those of the nearest tabulated metallicity", "opened": opened[0], "best": best}
+    return None
+
+
 def check_rows(x):
     wdgrid = np.loadtxt(ifmr.get_data("sevtables/wdifmr.dat"))
     spl, mi, mf = ifmr._MIST18_WD_predictor(x)
@@ -183,6 +202,12 @@ def sweep(ctx):
         for x in xs:
             bad = check_nearest(fam, x)
             ctx.sweep_case("nearest_table", (fam, x), bad is None, {"failing_input": {"call": "nearest", "args": {"family": fam, "FeH": jf(x)}}, "observed": bad}, branch=fam)
+    for sne in ("rapid", "delayed"):
+        xs = [i / 1000 for i in range(-4000, 2001, ctx.n(7, 1))] + [gen_feh(ctx.rng) for _ in range(ctx.n(100, 2000) * eff)]
+        for x in xs:
+            bad = check_kick_direct(x, sne)
+            ctx.sweep_case("kick_lookup", (sne, x), bad is None, {"failing_input": {"call": "kick_direct", "args": {"FeH": jf(x), "sne": sne}}, "observed": bad},
+                           branch=sne)
     for _ in range(ctx.n(40, 400) * eff):
         x = gen_feh(ctx.rng)
         which = ctx.rng.choice(["EvolvedMF", "InitialBHPopulation"])
@@ -197,6 +222,8 @@ def sweep(ctx):
 
 def replay(ctx, fi):
     a = fi["args"]
+    if fi["call"] == "kick_direct":
+        return check_kick_direct(unjf(a["FeH"]), a["sne"])
     if fi["call"] == "kicks":
         return check_kicks(a["class"], unjf(a["FeH"]))
     if fi["call"] == "nearest":
